@@ -193,7 +193,7 @@ def seeded(ctx):
         sp_descs.append(d)
     # stochastic dynamics written as a chain of chains (the random function inside an inner chain): the generator must reach every level
     nest_descs = []
-    for _ in range(4 if ctx.tier == 'quick' else 30):
+    for _ in range(8 if ctx.tier == 'quick' else 40):
         d = envs.rand_env(r)
         if r.random() < 0.6:
             d['reset'] = {'name': 'dynamic_obstacles', 'shape': (r.randint(5, 7), r.randint(5, 7)), 'num_obstacles': r.randint(2, 4), 'random_agent': r.random() < 0.5}
@@ -202,7 +202,8 @@ def seeded(ctx):
             d['reset'] = {'name': 'teleport', 'shape': (r.randint(5, 7), r.randint(5, 7))}
             d['trans'] = r.choice([[0, 1, 6], [0, 6], [6, 0, 1]])
         n = len(d['trans'])
-        d['trans_nesting'] = r.choice([[n], [1, 2], [2, 1]]) if n == 3 else [n]
+        stoch = next(i for i, t in enumerate(d['trans']) if t in (3, 6))
+        d['trans_nesting'] = r.choice([[n], [n], [1, 2] if stoch >= 1 else [2, 1]]) if n == 3 else [n]
         d['actions'] = list(range(8))
         d['term'] = {'name': 'reach_exit'}
         d['reward'] = {'name': 'reduce_sum', 'parts': [{'name': 'living_reward', 'params': [-0.05]}]}
